@@ -2,3 +2,7 @@ add("C01", "runtime monitor: handler-view and response-sequence comparator over 
     "Held on the executions produced: each case is a connection of 1..6 generated requests (all framings, near-miss names, folded values, Expect, HTTP/1.0, sizes around buffer boundaries) under seeded segmentation, buffered and streaming; handler views, order, body bytes and the strict-parsed response sequence are compared with the description. Nothing is claimed for streams outside the generator's domain.",
     "Trusted: the harness serialiser/strict parser (lib/wire), the scripted connection; standard transport only via hook H1 (netpoll sits on an fd).",
     "DESIGN.md §4 C01")
+add("C02", "runtime monitor: metamorphic segmentation sweep (every 2-way split, byte-wise, random k-way) of the same byte stream through the real server and client, records compared with the single-fragment run",
+    "Held on the executions produced: for every corpus stream (valid, folded, LF-only, mutated-malformed; requests and responses; buffered and streaming) every executed segmentation produced the same handler views/output bytes (server) or the same response object/error class (client) as the unsplit run. Exhaustive only over the 2-way split points of streams below the tier's length bound.",
+    "Trusted: scripted connections, record rendering (Date masked, errors by class). Netpoll transport not driven.",
+    "DESIGN.md §4 C02")
